@@ -284,7 +284,10 @@ class SgzConverter(SgzReader):
     # will be wrong. May be better to correct this on cropping rather than regenerating SEG-Y...
     def regenerate_trace_header(self, i):
         header = self.gen_trace_header(i)
-        header[segyio.TraceField.DelayRecordingTime] = int(self.zslices[0])
+        # segyio takes the first sample time to be this word times the trace's time scalar (negative: divided by it)
+        scalar = header[segyio.TraceField.ScalarTraceHeader]
+        scale = 1 if scalar == 0 else (abs(scalar) if scalar > 0 else 1.0 / abs(scalar))
+        header[segyio.TraceField.DelayRecordingTime] = int(round(self.zslices[0] / scale))
         return header
 
     def convert_to_segy(self, out_file):
